@@ -1264,7 +1264,11 @@ class Executor:
                 return self.opaque_call(name, args, kwargs, path, node)
             raise Unsupported(f"call to {name} has neither a contract nor a library contract (line {node.lineno})")
         if CFG_MODE[0] and isinstance(fn, Opaque):
-            return self.opaque_call(fn.tag, args, kwargs, path, node)
+            r = self.opaque_call(fn.tag, args, kwargs, path, node)
+            src = getattr(fn, "attr_of", None)
+            if src is not None:
+                path.ghost["events"][-1]["recv"] = src[0]      # obj.method(...): the receiver is the object the attribute was read from
+            return r
         raise Unsupported(f"call of {fn!r}")
 
     def opaque_call(self, name, args, kwargs, path, node):
